@@ -73,6 +73,7 @@ type State struct {
 	entryHeap map[string]string
 	pathID    int
 	calllog   []string
+	callExtra map[string][]string // calls made inside contract-applied callees: symbolic counts per callee name
 	touched   map[string]bool // heap names written on this path (incl. via havoc)
 	dead      bool
 	lastRes   map[string]Val // callee name -> result of its most recent call on this path
@@ -93,6 +94,12 @@ func (s *State) clone() *State {
 		n.touched[k] = v
 	}
 	n.calllog = append([]string(nil), s.calllog...)
+	if s.callExtra != nil {
+		n.callExtra = map[string][]string{}
+		for k, v := range s.callExtra {
+			n.callExtra[k] = append([]string(nil), v...)
+		}
+	}
 	if s.heapAlloc != nil {
 		n.heapAlloc = make(map[string]string, len(s.heapAlloc))
 		for k, v := range s.heapAlloc {
